@@ -1318,7 +1318,7 @@ func TestC18(t *testing.T) {
 			}
 			// shrink to a minimal script with the same failure
 			sh := script
-			if perWhat[key] == 1 {
+			{
 				sh = hx.Shrink(script, 1, func(s []string) bool {
 					r2 := runCase(model, s)
 					if f.kind == "oracle" {
